@@ -550,5 +550,24 @@ class PairingAtIndex(_Objective):
             if case["cfg"] in self.CONFIGS:
                 yield case
 
+    def case_id(self, case):
+        return super().case_id(case) + (f",data_scale={case['data_scale']:g}" if "data_scale" in case else "")
+
     def bounded_checks(self, tier, seed):
-        return []
+        """B: the full-model path (Kronecker matrix against the flattened data) natively at data scales from 1e-10 to 1e6: the
+        linear problem is solved for the data as they are, whatever their magnitude."""
+        from contracts import configs
+        from contracts.common import native_sweep
+
+        cfgs = [c for c in configs.configs("quick") if c.name in ("full_model", "full_model_same_labels", "full_model_and_plain")]
+        cases = [{"cfg": c.name, "_cfg": c, "data_scale": sc} for c in cfgs for sc in (1.0, 1e6, 1e-6, 1e-10)]
+
+        def env(case, rng):
+            e = {}
+            for ds in case["_cfg"].datasets:
+                for m in range(len(ds.model_axis)):
+                    for g in range(len(ds.global_axis)):
+                        e[f"d_{ds.label}_{m}_{g}"] = round(rng.uniform(-2, 2), 3) * case["data_scale"]
+            return e
+
+        return native_sweep(self, cases, envs=env, tries=2, seed=seed, name="bounded_full_model_solved_at_every_data_scale")
